@@ -241,8 +241,13 @@ def run(ck):
     gate = [b for b in asm.blocks.values() if (b.get("term") or {}).get("c") is not None and any(notnone(l) for l in E.leaves(b["term"]["c"]))
             and b["term"].get("k") == "IfStmt"]
     ck.need(len(gate) == 1, "C34: the `quote || fmt->quote != LOG_QUOTE_NONE` gate vanished")
-    qf = {E.strip(b["term"]["c"]).get("d") for b in asm.blocks.values() if (b.get("term") or {}).get("c") is not None
-          and any(s["to"] == gate[0]["id"] and s.get("lab") == "F" for s in b["succ"]) and E.strip(b["term"]["c"]).get("dk") == "local"}
+    # the per-field quote flag: a plain local tested in the same condition as fmt->quote != LOG_QUOTE_NONE (as a leaf of the gate's own condition or as
+    # the short-circuit operand evaluated just before it; `quote || ...` and `!(!quote && ...)` alike)
+    near = list(E.leaves(gate[0]["term"]["c"]))
+    for b in asm.blocks.values():
+        if (b.get("term") or {}).get("c") is not None and b["term"].get("k") in ("BinaryOperator", "ConditionalOperator") and any(s["to"] == gate[0]["id"] for s in b["succ"]):
+            near += list(E.leaves(b["term"]["c"]))
+    qf = {E.strip(E.norm(l)[0]).get("d") for l in near if isinstance(E.strip(E.norm(l)[0]), dict) and E.strip(E.norm(l)[0]).get("k") == "ref" and E.strip(E.norm(l)[0]).get("dk") == "local"}
     ck.need(len(qf) <= 1, "C34: several locals are tested next to fmt->quote != LOG_QUOTE_NONE")
     quote_flag = E.m_is_ref(qf.pop()) if qf else E.M(lambda t: False, "<no per-field quote flag>")
     url_flags = {}
@@ -375,7 +380,7 @@ def run(ck):
     edges = ck.trigger_edges(ta, leftover, True)
     ck.need(edges, "C34: terminateAll no longer tests whether leftover input has to be forgotten")
     for (bid, lab, to) in edges:
-        fl5 = ck.flow(ta, start=to, markers={"cleared": clear}, track_markers=["cleared"], track_atoms={"empty": inbuf_empty})
+        fl5 = ck.flow(ta, start=to, markers={"cleared": clear}, track_markers=["cleared"], track_atoms={"empty": inbuf_empty}, init_env=ck.edge_marks(ta, bid, lab))
         bad = [st for st in fl5.find(ev_exit(("ret", "fall"))) if not (st.env.get("#cleared") == 1 or st.tracked("empty") is True)]
         where = ta.where(ta.blocks[bid]["term"].get("l"))
         if not bad:
